@@ -11,9 +11,10 @@ THEOREMS = ["C04.C04_inflight_le_max", "C04.C04_reject_iff_full", "C04.C04_slots
             "C04.C04_release_on_every_exit", "C04.C04_quiescent_restores_max"]
 RACE = True
 JOBS = 12
-RULE = ("scenario = deterministic interleaving of start/finish(normal|panic) events of up to 40 requests from 1-4 sources "
+RULE = ("scenario = deterministic interleaving of start/finish(normal | panic with a string, an error, http.ErrAbortHandler or a runtime error) events of up to 40 requests from 1-4 sources "
         "against limits -1..5 (handlers block on channels), built-in header extractor (configured header name and the name the client sends "
-        "spelled independently: canonical, lower, upper, mixed case) with connlimit's Verbose / Logger / ErrorHandler options switched on "
+        "spelled independently: canonical, lower, upper, mixed case) or the stock client.ip extractor (IPv4 / IPv6 / zoned IPv6 peers, RemoteAddr = "
+        "JoinHostPort(ip, port) with another port for every connection) with connlimit's Verbose / Logger / ErrorHandler options switched on "
         "and off from the cfg line, or a custom extractor with amounts "
         "0..3/-1 and extractor errors, usually followed by a drain and max+1 fresh arrivals; a third of the scenarios use a parking "
         "ErrorHandler (slowreject=1: rejections stay in progress until finished); a quarter are burst scenarios: rounds of pstart = "
@@ -47,10 +48,18 @@ def _spell(rng, name):
     return "".join(c.upper() if rng.random() < 0.5 else c.lower() for c in name)
 
 
-def _cfg(rng, mx, builtin, slow):
+PANICS = ["panic", "panic-err", "panic-abort", "panic-rt"]   # string, error value, http.ErrAbortHandler, runtime error
+PEERS = ["10.0.0.1", "192.168.1.77", "2001:db8::1", "::1", "fe80::1%eth0", "fe80::1%eth1", "::ffff:10.0.0.1", "2001:db8:0:1::a"]
+
+
+def _exit(rng):
+    return "normal" if rng.random() < 0.45 else rng.choice(PANICS)
+
+
+def _cfg(rng, mx, builtin, slow, clientip=False):
     """cfg line: every exported option of connlimit (ErrorHandler, Verbose, Logger) and, for the built-in header extractor, the
     spelling of the configured variable and of the header the client sends, chosen independently"""
-    t = ["cfg", "max=%d" % mx, "ext=%s" % ("builtin" if builtin else "custom")]
+    t = ["cfg", "max=%d" % mx, "ext=%s" % ("clientip" if clientip else "builtin" if builtin else "custom")]
     if slow:
         t.append("slowreject=1")
     k = rng.random()
@@ -60,7 +69,7 @@ def _cfg(rng, mx, builtin, slow):
         t.append("verbose=0")
     if rng.random() < 0.5:
         t.append("log=1")
-    if builtin and rng.random() < 0.8:
+    if builtin and not clientip and rng.random() < 0.8:
         name = rng.choice(HNAMES)
         t.append("hvar=" + _spell(rng, name))
         t.append("hsend=" + _spell(rng, name))
@@ -70,13 +79,13 @@ def _cfg(rng, mx, builtin, slow):
 EXTRAS = ["", " verbose=1 log=1", " hvar=x-client-id hsend=X-Client-Id", " verbose=1", " hvar=X-API-KEY hsend=x-api-key log=1",
           " verbose=0 log=1", " hvar=authorization hsend=AUTHORIZATION verbose=1"]
 
-def _tail(lines, live, mx, tag, rng=None):
+def _tail(lines, live, mx, tag, rng=None, src="s0"):
     """drain, then max+1 fresh arrivals of one source"""
     for i, rid in enumerate(list(live)):
-        mode = "panic" if (rng.random() < 0.5 if rng else i % 2) else "normal"
+        mode = ("normal" if rng.random() < 0.5 else rng.choice(PANICS)) if rng else ("panic" if i % 2 else "normal")
         lines.append("finish %s %s" % (rid, mode))
     for i in range(max(mx, 0) + 1):
-        lines.append("start q%s%d s0" % (tag, i))
+        lines.append("start q%s%d %s" % (tag, i, src))
 
 
 def _burst_scenario(rng, tier):
@@ -84,8 +93,9 @@ def _burst_scenario(rng, tier):
     mx = rng.choice([1, 1, 2, 2, 3])
     slow = rng.random() < 0.25
     builtin = rng.random() < 0.15
-    lines = [_cfg(rng, mx, builtin, slow)]
-    srcs = ["s0", "s1"]
+    clientip = builtin and rng.random() < 0.5
+    lines = [_cfg(rng, mx, builtin, slow, clientip)]
+    srcs = rng.sample(PEERS, 2) if clientip else ["s0", "s1"]
     held = {s: [] for s in srcs}
     rej = []
     for k in range(rng.randint(6, 10) if tier != "thorough" else rng.randint(10, 20)):
@@ -108,7 +118,7 @@ def _burst_scenario(rng, tier):
             keep = 1 if rng.random() < 0.1 and held[s] else 0
             while len(held[s]) > keep:
                 rid = held[s].pop(rng.randrange(len(held[s])))
-                lines.append("finish %s %s" % (rid, rng.choice(["normal", "panic"])))
+                lines.append("finish %s %s" % (rid, _exit(rng)))
         while rej and rng.random() < 0.9:
             lines.append("finish %s normal" % rej.pop(rng.randrange(len(rej))))
     return lines
@@ -124,8 +134,9 @@ def gen(rng, tier):
         builtin = rng.random() < 0.5
         slow = rng.random() < 0.33
         nsrc = rng.randint(1, 4)
-        srcs = ["s%d" % i for i in range(nsrc)]
-        lines = [_cfg(rng, mx, builtin, slow)]
+        clientip = builtin and rng.random() < 0.35
+        srcs = rng.sample(PEERS, nsrc) if clientip else ["s%d" % i for i in range(nsrc)]
+        lines = [_cfg(rng, mx, builtin, slow, clientip)]
         odd = (not builtin) and rng.random() < 0.35       # scenario with amounts != 1
         live = []                                          # ids the generator believes are inside the handler
         rej = []                                           # ids the generator believes are parked in the error handler
@@ -136,12 +147,24 @@ def gen(rng, tier):
         for _ in range(n_ev):
             r = rng.random()
             if rej and rng.random() < 0.25:
-                lines.append("finish %s %s" % (rej.pop(rng.randrange(len(rej))), rng.choice(["normal", "panic"])))
+                lines.append("finish %s %s" % (rej.pop(rng.randrange(len(rej))), _exit(rng)))
                 continue
             if r < p_start or not live:
                 if (live or rej) and rng.random() < 0.03:
                     rid = rng.choice([x[0] for x in live] + rej)   # protocol misuse: id still in use
                     lines.append("start %s %s" % (rid, rng.choice(srcs)))
+                    continue
+                if clientip and rng.random() < 0.95:
+                    # same peer, a new connection: another source port every time
+                    rid = "r%d" % nid
+                    nid += 1
+                    src = rng.choice(srcs) if rng.random() < 0.7 else srcs[0]
+                    lines.append("start %s %s port=%d" % (rid, src, rng.randint(1024, 65535)) if rng.random() < 0.9 else "start %s %s" % (rid, src))
+                    if held.get(src, 0) < mx:
+                        held[src] = held.get(src, 0) + 1
+                        live.append((rid, src, 1))
+                    elif slow:
+                        rej.append(rid)
                     continue
                 if not odd and rng.random() < 0.04:
                     n = rng.randint(2, 5)
@@ -179,12 +202,12 @@ def gen(rng, tier):
                 j = rng.randrange(len(live)) if rng.random() < 0.7 else 0
                 rid, src, amt = live.pop(j)
                 held[src] -= amt
-                lines.append("finish %s %s" % (rid, rng.choice(["normal", "panic"])))
+                lines.append("finish %s %s" % (rid, _exit(rng)))
         if rng.random() < 0.7:
             if rng.random() < 0.5:
                 for rid in rej:
                     lines.append("finish %s normal" % rid)
-            _tail(lines, [x[0] for x in live], mx, "a", rng)
+            _tail(lines, [x[0] for x in live], mx, "a", rng, srcs[0])
             for s in srcs[:2]:
                 lines.append("inflight " + s)
         yield lines
@@ -227,13 +250,26 @@ def _interleavings(n, mx, nsrc, modes, slow=False):
         for s in srcs:
             if live[s]:
                 rid = live[s].pop(0)
-                mode = {"n": "normal", "p": "panic", "a": "panic" if nfin % 2 == 0 else "normal"}[modes]
+                pk = PANICS[(nfin + started) % len(PANICS)]
+                mode = {"n": "normal", "p": pk, "a": pk if nfin % 2 == 0 else "normal"}[modes]
                 lines.append("finish %s %s" % (rid, mode))
                 rec(lines, live, started, nfin + 1)
                 lines.pop()
                 live[s].insert(0, rid)
 
     rec([], {s: [] for s in srcs}, 0, 0)
+    return out
+
+
+def _as_clientip(lines):
+    """the same interleaving with the stock client.ip extractor: two IPv6 peers, every connection from another port"""
+    out = [lines[0].split(" ext=builtin")[0] + " ext=clientip" + (" slowreject=1" if "slowreject=1" in lines[0] else "")]
+    for i, l in enumerate(lines[1:]):
+        f = l.split()
+        if f[0] == "start":
+            f[2] = {"s0": "2001:db8::1", "s1": "fe80::1%eth0"}[f[2]]
+            f.append("port=%d" % (5000 + i))
+        out.append(" ".join(f))
     return out
 
 
@@ -251,7 +287,7 @@ def exhaustive(tier):
                         k += 1
                         lines = ["cfg max=%d ext=builtin%s" % (mx, EXTRAS[k % len(EXTRAS)])] + body
                         _tail(lines, [], mx, "z")
-                        yield lines
+                        yield _as_clientip(lines) if k % 5 == 4 else lines
     for mx in (0, 1, 2):
         for nsrc in (1, 2):
             for n in range(1, 6):
@@ -263,7 +299,7 @@ def exhaustive(tier):
                         lines = ["cfg max=%d ext=builtin slowreject=1%s" % (mx, EXTRAS[k % len(EXTRAS)])] + body
                         for i in range(max(mx, 0) + 1):
                             lines.append("start qz%d s0" % i)
-                        yield lines
+                        yield _as_clientip(lines) if k % 5 == 4 else lines
 
 
 # ------------------------------------------------------------------------------------------ monitor
@@ -385,7 +421,7 @@ def _walk(ops, outs):
                 src = live.pop(rid)
                 cnt[src] -= 1
                 stats["rel"] += 1
-                if f[2] == "panic":
+                if f[2].startswith("panic"):
                     stats["panic"] += 1
                 if not live:
                     pos = one = True       # quiescent: the limiter must be as new
